@@ -18,8 +18,12 @@ VERIF = "/verif"
 COQ = os.path.join(VERIF, "coq")
 RUN = os.path.join(COQ, "Run")
 REPO = os.environ.get("VERIF_REPO", "/repo")   # override only for scratch-worktree experiments
-EVID = os.path.join(VERIF, "evidence")
-REPLAYS = os.path.join(VERIF, "replays")
+# runs against a scratch copy of the repository (VERIF_REPO, mutation experiments) must never touch the
+# evidence and replay files of the real checks: they go to an ignored scratch directory instead
+_SCRATCH = None if os.path.realpath(REPO) == "/repo" else os.path.join(
+    VERIF, "replays", "tmp_" + hashlib.sha1(os.path.realpath(REPO).encode()).hexdigest()[:10])
+EVID = os.environ.get("VERIF_EVID") or (os.path.join(_SCRATCH, "evidence") if _SCRATCH else os.path.join(VERIF, "evidence"))
+REPLAYS = os.environ.get("VERIF_REPLAYS") or (os.path.join(_SCRATCH, "replays") if _SCRATCH else os.path.join(VERIF, "replays"))
 KNOWN = os.path.join(VERIF, "known_findings.json")
 
 FORBIDDEN = re.compile(
